@@ -1,2 +1,54 @@
-(* C17: statements only; theorems are added as the model of the anchored mechanism is proved *)
-From GGRS Require Import Base.
+(* C17 — session behaviour is a function of its inputs, not of hash order.
+   Statements only.  Model: coq/P2P.v (session core), tied to the code by the `session` correspondence
+   level.  In the code every "for every endpoint" is an iteration over a HashMap: poll_remote_clients
+   collects the events of all endpoints in that order and then handles them one after the other.  The
+   model handles them in ascending endpoint order; the theorems below say that the order is irrelevant
+   for the events whose handling touches shared session state: the Disconnected events of two
+   endpoints (they share the pending rollback frame - the defect repaired in e6b12d3) and the Input
+   events of two players.  What the model does not contain (the order in which packets are handed to the
+   socket, HashMap-ordered event *emission* inside one call) is decided by the run-twice search of the
+   L4 simulation: every scenario is executed twice in one process with fresh hash states and different
+   handshake nonces; request lists, game states and per-address event sequences must be identical. *)
+From GGRS Require Import Base Consts Queue Sync P2P Session SessionOrder.
+Open Scope Z_scope.
+
+(* The Disconnected events of two different remote endpoints (each carrying any number of players),
+   handled in either order, leave the same session state: same connection statuses, same endpoints
+   stopped, and the same pending rollback frame - the earliest of the cut-offs. *)
+Theorem C17_disconnected_events_commute :
+  forall (p : p2p) (hs1 hs2 : list Z) (ep1 ep2 : nat) (e1 e2 : epview),
+  ep1 <> ep2 -> nth_error (ps_remotes p) ep1 = Some e1 -> nth_error (ps_remotes p) ep2 = Some e2 ->
+  (forall h, In h hs1 -> kind_at p h = Some (KRemote (Z.of_nat ep1))) ->
+  (forall h, In h hs2 -> kind_at p h = Some (KRemote (Z.of_nat ep2))) ->
+  Forall (fun c => -1 <= cs_last c) (ps_status p) ->
+  res_bind (ev_disconnected p hs1) (fun p1 => ev_disconnected p1 hs2) =
+  res_bind (ev_disconnected p hs2) (fun p2 => ev_disconnected p2 hs1).
+Proof. exact disconnected_events_commute. Qed.
+
+(* The Input events of two different players, handled in either order: both orders succeed or both
+   fail, and when they succeed the session state is the same. *)
+Theorem C17_input_events_commute :
+  forall (p : p2p) (pl1 f1 v1 pl2 f2 v2 : Z), 0 <= pl1 -> 0 <= pl2 -> pl1 <> pl2 ->
+  (forall a b, res_bind (ev_input p pl1 f1 v1) (fun q => ev_input q pl2 f2 v2) = Ok a ->
+               res_bind (ev_input p pl2 f2 v2) (fun q => ev_input q pl1 f1 v1) = Ok b -> a = b) /\
+  ((exists a, res_bind (ev_input p pl1 f1 v1) (fun q => ev_input q pl2 f2 v2) = Ok a) <->
+   (exists b, res_bind (ev_input p pl2 f2 v2) (fun q => ev_input q pl1 f1 v1) = Ok b)).
+Proof. exact input_events_commute. Qed.
+
+(* Before the repair the order of two Disconnected events mattered: the pending rollback frame was the
+   one handled last (4 or 2 below), so two runs of one session could differ - found by the run-twice
+   search (known_findings.json, fixed entry for e6b12d3) and by the failed attempt to prove the
+   commutation theorem for the old code. *)
+Theorem C17_disconnect_order_mattered_refuted :
+  exists p e1 e2, nth_error (ps_remotes p) 0 = Some e1 /\ nth_error (ps_remotes p) 1 = Some e2 /\
+    ps_disc_frame (drop_ep_old 1 e2 3 (drop_ep_old 0 e1 1 p)) = 4 /\
+    ps_disc_frame (drop_ep_old 0 e1 1 (drop_ep_old 1 e2 3 p)) = 2.
+Proof. exact disconnect_order_mattered_refuted. Qed.
+
+(* non-vacuity: two endpoints with one player each, dropped in both orders *)
+Example C17_demo :
+  let p := with_sync (session_start 3 8 false 0 [KLocal; KRemote 0; KRemote 1] [[1]; [2]] 0)
+             (with_current (ps_sync (session_start 3 8 false 0 [KLocal; KRemote 0; KRemote 1] [[1]; [2]] 0)) 6) in
+  exists q, res_bind (ev_disconnected p [1]) (fun p1 => ev_disconnected p1 [2]) = Ok q /\
+            res_bind (ev_disconnected p [2]) (fun p1 => ev_disconnected p1 [1]) = Ok q /\ ps_disc_frame q = 0.
+Proof. eexists. split; [vm_compute; reflexivity|]. split; vm_compute; reflexivity. Qed.
